@@ -255,7 +255,7 @@ func (a *basicDownloadAdapter) download(t *Transfer, cb ProgressCallback, authOk
 	}
 
 	err = tools.RenameFileCopyPermissions(dlfilename, t.Path)
-	if _, err2 := os.Stat(t.Path); err2 == nil {
+	if fi, err2 := os.Stat(t.Path); err2 == nil && fi.Mode().IsRegular() {
 		// Target file already exists, possibly was downloaded by other git-lfs process
 		return nil
 	}
